@@ -74,7 +74,7 @@ def check(case) -> core.Out:
     items, opts, clean = case["items"], dict(case["opts"]), case["clean"]
     data = streams.stream_bytes(items)
     out = core.Out(classes=[], dig=core.digest((data, sorted(opts.items()))))
-    logging.disable(logging.CRITICAL)
+    core.log_off()
     try:
         try:
             full, exc = run_once(data, opts)
@@ -144,7 +144,7 @@ def check(case) -> core.Out:
                       "frames": [f"{i['p']}:{i['tag']}" for i in items][:8]}
         return out
     finally:
-        logging.disable(logging.NOTSET)
+        core.log_on()
 
 
 OPTS = st.fixed_dictionaries({
